@@ -247,6 +247,8 @@ def work(task):
             pool3 = POOL[::3]
             cases = [(w, (a, b, c)) for w in TERNARY for a in pool3 for b in pool3 for c in pool3]
         for idx in range(lo, min(hi, len(cases))):
+            if len(ev.violations) >= 30:
+                break       # verdict settled
             w, ops = cases[idx]
             if kind == "stream":
                 check_stream(drv, ev, ops, w)
@@ -254,7 +256,7 @@ def work(task):
             rnd = random.Random((seed << 20) ^ idx ^ hash(kind) & 0xffff)
             depth_below = rnd.choice([0, 0, 1, 2, 3, 4]) if kind != "ternary" else rnd.choice([0, 1, 3])
             stack = filler(rnd, depth_below) + list(ops)
-            check(drv, ev, stack, w, rnd, all_hist=thorough or kind != "binary" or idx % 4 == 0)
+            check(drv, ev, stack, w, rnd, all_hist=thorough or kind != "binary" or idx % 8 == 0)
         if kind == "unary" and lo == 0:
             # too-shallow stacks: a word on a stack that lacks its operands fails through the API
             for w in ["drop", "dup", "swap", "over", "rot", "type", "pos"]:
